@@ -248,8 +248,12 @@ class Program:
         self.fresh = {}
         self._tail_index = None
         self._crate_names = set()
+        self.folded = {}        # baseline function that no longer exists -> the only caller its code was inlined into
         for p in pkgs:
             data = F.load(p, repo=repo, log=log, variant=variant)
+            from .normalize import normalize
+            data = normalize(p, data, log=log)
+            self.folded.update(data.get("_folded", {}))
             self.crates[p] = data
             self._crate_names.add(data.get("crate", p))
             if data.get("missing"):
@@ -293,7 +297,43 @@ class Program:
         bs = self.find(suffix, crate)
         if len(bs) == 1:
             return bs[0]
+        if not bs:
+            # the anchor was inlined into its only caller by a refactoring: analyse it where its code lives now
+            hits = [c for g, c in self.folded.items() if g == suffix or g.endswith("::" + suffix)]
+            if len(hits) == 1:
+                cb = self.by_key.get(hits[0])
+                if cb:
+                    return cb[0]
         return None
+
+    def inlined_body(self, body, pred=None, depth=2, max_blocks=1500):
+        """A copy of `body` in which calls of local, non-closure functions accepted by `pred(callee_body)` (default: all of
+        the same crate) are replaced by the callee's MIR (bounded depth). Rules written against this view do not care
+        whether a step lives in a private helper or in the caller."""
+        import copy
+        from .normalize import _inline_call
+        d = copy.deepcopy(body.d)
+        for _ in range(depth):
+            progressed = False
+            i = 0
+            while i < len(d["blocks"]) and len(d["blocks"]) < max_blocks:
+                t = d["blocks"][i]["term"]
+                if t["k"] == "call" and isinstance(t.get("dest"), dict):
+                    cb = self.body_for_callee(t["callee"])
+                    if cb is not None and not cb.is_closure and not cb.coroutine and cb.crate == body.crate and cb.key != body.key \
+                            and len(t["args"]) == cb.arg_count and (pred is None or pred(cb)):
+                        _inline_call(d, i, cb.d)
+                        progressed = True
+                i += 1
+            if not progressed:
+                break
+        nb = Body(d, body.crate)
+        nb.preds = body.preds
+        return nb
+
+    def folded_into(self, fn_key):
+        """Key of the body that now contains the code of baseline function `fn_key` (itself when it still exists)."""
+        return self.folded.get(fn_key, fn_key)
 
     def closures_of(self, body):
         """Closure bodies lexically nested (directly or not) in `body`."""
